@@ -118,6 +118,7 @@ def parseOp (j : Json) : Except String Op := do
   | "remove" => return .remove (← getNat j "g") (← getNatList j "ns") (← getBool j "safe")
   | "sortOk" => return .sortOk (← asList asOrder (← j.getObjVal? "orders"))
   | "sortCycle" => return .sortCycle
+  | "attrEdit" => return .attrEdit
   | _ => throw s!"unknown kernel op {o}"
 
 def parseAny (j : Json) : Except String AnyOp := do
@@ -148,16 +149,22 @@ def nodeJ (r : NodeS) : Json :=
 
 def sortedStrs (xs : List String) : List String := (xs.toArray.qsort (· < ·)).toList
 
-def graphJ (r : GraphS) : Json :=
+def dedupStrs (xs : List String) : List String := xs.foldl (fun acc s => if acc.contains s then acc else acc ++ [s]) []
+
+def graphJ (rx : GraphS × List String) : Json :=
+  let r := rx.1
   obj [("inputs", natsJ r.inputs), ("outputs", natsJ r.outputs), ("incnt", cntJ r.inCnt),
     ("outcnt", cntJ r.outCnt),
     ("inits", Json.arr (r.inits.map (fun p => Json.arr #[Json.str p.1, natJ p.2])).toArray),
     ("nodes", natsJ r.nodes), ("vctr", natJ r.vCtr), ("nctr", natJ r.nCtr),
-    ("vnames", strsJ (sortedStrs r.vNames)), ("nnames", strsJ (sortedStrs r.nNames))]
+    ("vnames", strsJ (sortedStrs (dedupStrs (r.vNames ++ rx.2)))), ("nnames", strsJ (sortedStrs r.nNames))]
+
+def withExtra (w : World) : List (GraphS × List String) :=
+  (enumFrom 0 w.graphs).map (fun p => (p.2, lget w.extra p.1))
 
 def worldJ (w : World) : Json :=
   obj [("values", Json.arr (w.vals.map valueJ).toArray), ("nodes", Json.arr (w.nodes.map nodeJ).toArray),
-    ("graphs", Json.arr (w.graphs.map graphJ).toArray),
+    ("graphs", Json.arr ((withExtra w).map graphJ).toArray),
     ("tensors", Json.arr (w.tensors.map (optJ Json.str)).toArray)]
 
 /-- records that are new or whose printed form changed (stores never shrink) -/
@@ -170,7 +177,7 @@ def deltaStore {α : Type} (f : α → Json) (old new : List α) : Json :=
 
 def deltaJ (w w' : World) : Json :=
   obj [("values", deltaStore valueJ w.vals w'.vals), ("nodes", deltaStore nodeJ w.nodes w'.nodes),
-    ("graphs", deltaStore graphJ w.graphs w'.graphs),
+    ("graphs", deltaStore graphJ (withExtra w) (withExtra w')),
     ("tensors", deltaStore (optJ Json.str) w.tensors w'.tensors)]
 
 def runOps (ops : List AnyOp) : List Json :=
